@@ -35,11 +35,12 @@ type Prog struct {
 	funcList  []*FuncInfo
 
 	// set when the program is the normalised (helper-expanded) view
-	posMaps    map[string]*fileMap
-	origSrc    map[string][]byte
-	lineStarts map[string][]int
-	Normalised string
-	collect    map[*types.Func]bool // anchor collection mode
+	posMaps     map[string]*fileMap
+	origSrc     map[string][]byte
+	lineStarts  map[string][]int
+	Normalised  string
+	expandedFns map[string]bool      // helpers expanded at one or more call sites
+	collect     map[*types.Func]bool // anchor collection mode
 }
 
 // FuncInfo is one source function (declaration) of a repo package.
